@@ -129,6 +129,13 @@ func (e *Env) Exec(spec *simrt.Spec) *Out {
 	return o
 }
 
+// ExecProcs is Exec at a given GOMAXPROCS.
+func (e *Env) ExecProcs(spec *simrt.Spec, procs string) *Out {
+	o := Exec(e.Bins.Sim, spec, procs)
+	e.Stats.note(spec, o)
+	return o
+}
+
 type Stats struct {
 	Cases          int            `json:"cases"`
 	Runs           int            `json:"runs"`
@@ -473,18 +480,24 @@ func ReplayFile(path string, bins *Bins) (reproduced bool, identical bool, ds []
 	if !ok {
 		return false, false, nil, fmt.Errorf("unknown property %q", r.Property)
 	}
-	outs := make([]*Out, len(r.Case.Runs))
-	identical = true
-	for i := range r.Case.Runs {
-		outs[i] = Exec(bins.Sim, &r.Case.Runs[i].Spec, "")
-		if i < len(r.Hashes) && outs[i].Hash(true) != r.Hashes[i] {
-			identical = false
-		}
+	attempts := 1
+	if strings.Contains(r.Signature, "unmodelled-source") {
+		attempts = 25 // a source the simulator does not own replays only statistically
 	}
-	ds = p.Eval(&r.Case, outs)
-	for _, d := range ds {
-		if d.Sig == r.Signature {
-			reproduced = true
+	for a := 0; a < attempts && !reproduced; a++ {
+		outs := make([]*Out, len(r.Case.Runs))
+		identical = true
+		for i := range r.Case.Runs {
+			outs[i] = Exec(bins.Sim, &r.Case.Runs[i].Spec, r.Case.Runs[i].Procs)
+			if i < len(r.Hashes) && outs[i].Hash(true) != r.Hashes[i] {
+				identical = false
+			}
+		}
+		ds = p.Eval(&r.Case, outs)
+		for _, d := range ds {
+			if d.Sig == r.Signature {
+				reproduced = true
+			}
 		}
 	}
 	return
@@ -628,7 +641,15 @@ func (e *Env) sampleChecks(w *World, args []string, c *Case) {
 		return
 	}
 	e.Stats.Counters["sampled_cases"]++
-	if w != nil && len(w.Web) == 0 { // the untouched binary has no virtual web to talk to
+	hasWeb := w != nil && len(w.Web) > 0
+	if w != nil {
+		for _, f := range w.Files {
+			if f.URL != "" {
+				hasWeb = true
+			}
+		}
+	}
+	if w != nil && !hasWeb { // the untouched binary has no virtual web to talk to
 		e.Stats.FidelityWorlds++
 		if msg := Fidelity(e.Bins, w, args); msg != "" {
 			e.Stats.FidelityMism++
